@@ -138,15 +138,17 @@ theorem build_slice_registered {cfg : Cfg} {d : TyDef} {tag : String} {c : Ty}
 
 /-- map key: `CodecForTypeRegistry(registry, typ.Key(), "")`. -/
 theorem build_map_key_registered {cfg : Cfg} {k v : TyDef} {tag : String} {c vc : Ty}
-    (h : customLoad cfg k "" = some c) (hk : v.kind ≠ .map) (hv : build cfg v "" = .ok vc) :
+    (h : customLoad cfg k "" = some c) (hk : v.kind ≠ .map) (hv : build cfg v "" = .ok vc)
+    (hps : vc.isProtoSlice = false) :
     build cfg (.map k v) tag = .ok (.map c vc (tag == "proto")) := by
-  rw [build]; simp only [hk, ↓reduceIte, build_of_customLoad h, hv]
+  rw [build]; simp [hk, build_of_customLoad h, hv, hps]
 
 /-- map value: `CodecForTypeRegistry(registry, typ.Elem(), "")`. -/
 theorem build_map_val_registered {cfg : Cfg} {k v : TyDef} {tag : String} {c kc : Ty}
-    (h : customLoad cfg v "" = some c) (hk : v.kind ≠ .map) (hkc : build cfg k "" = .ok kc) :
+    (h : customLoad cfg v "" = some c) (hk : v.kind ≠ .map) (hkc : build cfg k "" = .ok kc)
+    (hps : c.isProtoSlice = false) :
     build cfg (.map k v) tag = .ok (.map kc c (tag == "proto")) := by
-  rw [build]; simp only [hk, ↓reduceIte, build_of_customLoad h, hkc]
+  rw [build]; simp [hk, build_of_customLoad h, hkc, hps]
 
 /-- a tag the field loop accepts is neither empty nor "-". -/
 theorem ptag_ok {ptag idxS : String} {pfx : Option String} {idx : Int}
@@ -315,14 +317,16 @@ theorem buildNamed_slice_registered {cfg : Cfg} {n : String} {d : TyDef} {tag : 
   rw [buildNamed]; simp only [hk, ↓reduceIte, build_of_customLoad h]
 
 theorem buildNamed_map_key_registered {cfg : Cfg} {n : String} {k v : TyDef} {tag : String} {c vc : Ty}
-    (h : customLoad cfg k "" = some c) (hk : v.kind ≠ .map) (hv : build cfg v "" = .ok vc) :
+    (h : customLoad cfg k "" = some c) (hk : v.kind ≠ .map) (hv : build cfg v "" = .ok vc)
+    (hps : vc.isProtoSlice = false) :
     buildNamed cfg n (.map k v) tag = .ok (.map c vc (tag == "proto")) := by
-  rw [buildNamed_map, build_map_key_registered h hk hv]
+  rw [buildNamed_map, build_map_key_registered h hk hv hps]
 
 theorem buildNamed_map_val_registered {cfg : Cfg} {n : String} {k v : TyDef} {tag : String} {c kc : Ty}
-    (h : customLoad cfg v "" = some c) (hk : v.kind ≠ .map) (hkc : build cfg k "" = .ok kc) :
+    (h : customLoad cfg v "" = some c) (hk : v.kind ≠ .map) (hkc : build cfg k "" = .ok kc)
+    (hps : c.isProtoSlice = false) :
     buildNamed cfg n (.map k v) tag = .ok (.map kc c (tag == "proto")) := by
-  rw [buildNamed_map, build_map_val_registered h hk hkc]
+  rw [buildNamed_map, build_map_val_registered h hk hkc hps]
 
 /-! ### when does a slice type hit the registry -/
 
